@@ -217,7 +217,7 @@ pub fn gen_c06(out: &mut Out, rng: &mut Rng, thorough: bool) {
                     let trailing = if rng.chance(1, 6) {
                         let tp = match rng.below(3) {
                             0 => pdu.clone(),
-                            1 => vec![rsp_code | 0x80, rng.u8()],
+                            1 => vec![rsp_code | 0x80, rng.exc_code()],
                             _ => {
                                 let c = *rng.pick(RTU_RSP_CODES);
                                 response_pdu_with_code(rng, c, kind == "rtu")
@@ -278,7 +278,7 @@ pub fn gen_c06(out: &mut Out, rng: &mut Rng, thorough: bool) {
                 (fc, tid, unit)
             };
             let pdu = if rng.chance(1, 4) {
-                vec![rfc | 0x80, rng.u8()]
+                vec![rfc | 0x80, rng.exc_code()]
             } else {
                 response_pdu_with_code(rng, rfc, kind == "rtu")
             };
@@ -407,7 +407,7 @@ pub fn gen_c10(out: &mut Out, rng: &mut Rng, thorough: bool) {
             }
             2 => {
                 // exception reply
-                line.push_str(&format!(" | call RSI r=d{}", hex_raw(&spec::mbap(tid, unit, &[0x91, 0x02]))));
+                line.push_str(&format!(" | call RSI r=d{}", hex_raw(&spec::mbap(tid, unit, &[0x91, rng.exc_code()]))));
             }
             3 => {
                 // good reply
@@ -462,6 +462,20 @@ pub fn gen_c10(out: &mut Out, rng: &mut Rng, thorough: bool) {
                 _ => line.push_str(" | call RSI r=e"),
             }
         }
+        monitor_line(out, &line);
+    }
+    // "receiving errors does not reset or reuse ids": every exception code, for units of every
+    // class (broadcast, single device, reserved, the TCP default), each followed by the next call
+    for unit in [0x00u8, 0x01, 0x11, 0xF7, 0xF8, 0xFF] {
+        let mut line = format!("cli tcp {}", hex8(unit));
+        let mut tid: u16 = 0;
+        for code in 0..=255u8 {
+            let fc = *rng.pick(&[0x03u8, 0x06, 0x10, 0x11, 0x16, 0x17]);
+            let req = request_with_code(rng, fc, false);
+            line.push_str(&format!(" | call {} r=d{}", request(&req), hex_raw(&spec::mbap(tid, unit, &[fc | 0x80, code]))));
+            tid = tid.wrapping_add(1);
+        }
+        line.push_str(" | call RSI r=e");
         monitor_line(out, &line);
     }
 }
@@ -544,7 +558,7 @@ fn c12_outcome(rng: &mut Rng, kind: &str, which: usize, tid: u16, unit: u8) -> S
         // good reply
         0 | 7 => frame(kind, tid, unit, &good_pdu),
         // exception
-        1 => frame(kind, tid, unit, &[0x83, 0x02]),
+        1 => frame(kind, tid, unit, &[0x83, rng.exc_code()]),
         // wrong header
         2 => frame(kind, tid.wrapping_add(1), unit.wrapping_add(1), &good_pdu),
         // wrong function
@@ -731,23 +745,56 @@ pub fn mon_c05_cli(out: &mut Out, l: &str, r: &str) {
 // ================================================================ C13
 
 pub fn gen_c13(out: &mut Out, rng: &mut Rng, thorough: bool) {
-    let shapes = if thorough { 40 } else { 12 };
+    // every request variant once per framing (the RTU decoder finds the end of a reply in a
+    // different way for almost every function code), with custom codes the RTU framing can carry;
+    // then random shapes
+    let mut fixed: Vec<(&str, Request<'static>, Vec<u8>)> = vec![];
+    for kind in ["tcp", "rtu"] {
+        let a = rng.u16();
+        let v: Vec<(Request<'static>, Response)> = vec![
+            (Request::ReadCoils(a, 11), Response::ReadCoils(rng.bits(16))),
+            (Request::ReadDiscreteInputs(a, 3), Response::ReadDiscreteInputs(rng.bits(8))),
+            (Request::ReadHoldingRegisters(a, 2), Response::ReadHoldingRegisters(rng.words(2))),
+            (Request::ReadInputRegisters(a, 1), Response::ReadInputRegisters(rng.words(1))),
+            (Request::WriteSingleCoil(a, true), Response::WriteSingleCoil(a, true)),
+            (Request::WriteSingleRegister(a, 7), Response::WriteSingleRegister(a, 7)),
+            (Request::WriteMultipleCoils(a, Cow::Owned(vec![true; 9])), Response::WriteMultipleCoils(a, 9)),
+            (Request::WriteMultipleRegisters(a, Cow::Owned(vec![1, 2])), Response::WriteMultipleRegisters(a, 2)),
+            (Request::ReportServerId, Response::ReportServerId(rng.u8(), true, rng.bytes(3))),
+            (Request::MaskWriteRegister(a, 1, 2), Response::MaskWriteRegister(a, 1, 2)),
+            (Request::ReadWriteMultipleRegisters(a, 2, a, Cow::Owned(vec![5])), Response::ReadWriteMultipleRegisters(rng.words(2))),
+        ];
+        for (q, r) in v {
+            fixed.push((kind, q, spec::response_bytes(&r).unwrap()));
+        }
+        // raw custom exchanges: layouts the RTU response table knows (0x07, 0x0B, 0x0C, 0x18)
+        fixed.push((kind, Request::Custom(0x07, Cow::Owned(vec![])), vec![0x07, rng.u8()]));
+        fixed.push((kind, Request::Custom(0x0B, Cow::Owned(vec![])), vec![0x0B, 0, 1, 0, 2]));
+        fixed.push((kind, Request::Custom(0x0C, Cow::Owned(vec![])), vec![0x0C, 4, 9, 8, 7, 6]));
+        fixed.push((kind, Request::Custom(0x18, Cow::Owned(vec![0, 1])), vec![0x18, 0, 4, 0, 1, 0xAB, 0xCD]));
+    }
+    let shapes = fixed.len() + if thorough { 40 } else { 6 };
     for si in 0..shapes {
-        let kind = if si % 2 == 0 { "tcp" } else { "rtu" };
-        let unit = rng.u8();
-        let req = loop {
-            let hint = rng.below(6);
-            let r = gen_request(rng, Some(hint));
-            if kind == "rtu" {
-                if let Request::Custom(..) = r {
-                    continue;
+        let (kind, req, rspb) = if si < fixed.len() {
+            fixed[si].clone()
+        } else {
+            let kind = if si % 2 == 0 { "tcp" } else { "rtu" };
+            let req = loop {
+                let hint = rng.below(6);
+                let r = gen_request(rng, Some(hint));
+                if kind == "rtu" {
+                    if let Request::Custom(..) = r {
+                        continue;
+                    }
                 }
-            }
-            break r;
+                break r;
+            };
+            let rsp = answer_for(rng, &req);
+            let Some(rspb) = spec::response_bytes(&rsp) else { continue };
+            (kind, req, rspb)
         };
+        let unit = rng.u8();
         let reqb = spec::request_bytes(&req).unwrap();
-        let rsp = answer_for(rng, &req);
-        let Some(rspb) = spec::response_bytes(&rsp) else { continue };
         if rspb.len() > 60 {
             continue;
         }
